@@ -25,6 +25,20 @@ poll (it is a no-op there), so polled cases are compared with the model exactly 
 A third, small family runs over REAL loopback TCP connections (no scripting at all: kernel socket, real selector),
 with the peer sending in 1..3 phases and closing, the Device reading - with or without status polls - in between.
 It is judged by the oracle only (the kernel decides the fragmentation, so there is no event script for the model).
+
+A fourth family puts *faults of the link* between the reads (family "faults", `gen_fault_session`): packets carrying two
+or more lines (plus tails), so that complete lines sit in the read buffer after a readline(), and then, BETWEEN two
+readline() calls, a `Device.write()` - what printcore's sender thread does while the listener is still draining - that
+succeeds or fails (the scripted socket file raises BrokenPipeError / ConnectionResetError / ... on write, as a socket does
+once the peer has gone); and reads that raise (ECONNRESET, event `x`) with lines or an unterminated tail buffered, after
+which the reading goes on (usually up to the end-of-stream mark that follows).  Sometimes the host disconnects and
+reconnects after the fault instead.  The statement quantifies over every stream / fragmentation / schedule of reads and
+says that no received byte is lost: neither a write in between nor a read that raised may change what the reads return,
+so these cases are judged by the same whole-life oracle.  The model has no notion of a write (a no-op there, like a
+status poll), so connections with writes only are still compared with it; it has no notion of a raising read, so
+connections whose script contains one are judged by the oracle only.  A few such cases also run over REAL loopback TCP
+(peer sends everything and closes, the Device reads some lines, writes until the write fails, reads on; or the peer
+resets the connection: it closes without having read what the Device wrote).
 """
 from __future__ import annotations
 
@@ -49,6 +63,8 @@ class _SockFile:
         self.closed = False
         self.taken = []          # everything handed out (and consumed), in order
         self.peeked_eof = False  # a non-consuming look at the stream has been answered "closed by the peer"
+        self.wnext = "ok"        # outcome of the next write(): "ok", "flush-timeout" or the name of what it raises
+        self.wlog = []           # (bytes written, outcome)
 
     def close(self):
         self.closed = True
@@ -66,12 +82,34 @@ class _SockFile:
         if self.i < len(self.reads):
             self.i += 1
             self.taken.append(v)
+        if isinstance(v, BaseException):
+            raise v                  # the read fails (connection reset by peer, ...)
         assert v is None or len(v) <= n
         return v
+
+    def write(self, data):
+        if self.closed:
+            raise ValueError("I/O operation on closed file")
+        w, self.wnext = self.wnext, "ok"
+        self.wlog.append((bytes(data), w))
+        if w not in ("ok", "flush-timeout"):
+            raise _link_error(w)
+        self._flush_times_out = (w == "flush-timeout")
+        return len(data)
+
+    def flush(self):
+        if getattr(self, "_flush_times_out", False):
+            self._flush_times_out = False
+            raise _socket.timeout("timed out")
 
     def recv(self, n, flags=0):
         """`socket.recv` of the (non-blocking) socket under the file, over the same script."""
         v = self._next()
+        if isinstance(v, BaseException):
+            if not flags & _socket.MSG_PEEK:
+                self.i += 1
+                self.taken.append(v)
+            raise v
         if v is None:
             if self.i < len(self.reads) and not flags & _socket.MSG_PEEK:
                 self.i += 1
@@ -89,6 +127,18 @@ class _SockFile:
                 self.i += 1
             self.taken.append(v)
         return v
+
+
+LINK_ERRORS = ("EPIPE", "ECONNRESET", "ETIMEDOUT", "EHOSTUNREACH", "ENETDOWN")
+
+
+def _link_error(name):
+    """What a socket raises when the link is broken: OSError with that errno (BrokenPipeError, ConnectionResetError, ...)
+    or, `runtime`, a RuntimeError (Device.write() treats both alike)."""
+    if name == "runtime":
+        return RuntimeError("write failed")
+    code = getattr(errno, name)
+    return OSError(code, errno.errorcode[code] + " (scripted)")
 
 
 class _Sel:
@@ -118,7 +168,8 @@ def lower_events(events, rng):
     """Turn model events into a concrete (reads, select answers) schedule.
 
     chunk -> either a direct read, or (None, select=True, data);  again -> (None, select=False)
-    or (None, select=True, None);  eof -> b'' (sticky: the scripted file answers b'' forever).
+    or (None, select=True, None);  eof -> b'' (sticky: the scripted file answers b'' forever);
+    x<ERR> (fault family only) -> a read that raises OSError(<ERR>), directly or on the re-read after a select.
     """
     reads, sels = [], []
     for e in events:
@@ -135,6 +186,11 @@ def lower_events(events, rng):
             else:
                 reads += [None, None]
                 sels.append(True)
+        elif e[0] == "x":
+            if rng.random() < 0.3:
+                reads.append(None)
+                sels.append(True)
+            reads.append(_link_error(e[1]))
         else:
             reads.append(b"")
             if rng.random() < 0.2:  # EOF seen on the re-read after a successful select
@@ -258,6 +314,11 @@ def _pending(d):
     return bytes(buf) if isinstance(buf, (bytes, bytearray)) else b"".join(bytes(c) for c in buf)
 
 
+def _buffered(d):
+    b = _pending(d)
+    return "lines-buffered" if b"\n" in b else "tail-buffered" if b else "nothing-buffered"
+
+
 def poll_set(polls, ncalls):
     """`polls`: None (no status poll), "all" (before every readline() and after the last one) or a list of indices
     i in 0..ncalls: `is_connected` is read before the i-th call (i = ncalls: after the last one)."""
@@ -266,8 +327,15 @@ def poll_set(polls, ncalls):
     return frozenset(range(ncalls + 1)) if polls == "all" else frozenset(polls)
 
 
-def _calls(d, ncalls, polls=None):
-    from gscrib.printrun.device import READ_EMPTY, READ_EOF
+WRITE_DATA = b"M105\n"
+
+
+def _calls(d, ncalls, polls=None, writes=None, f=None, flog=None):
+    """`writes`: [(i, outcome)]: before the i-th readline() call (after the status poll there, if any) the host calls
+    `Device.write()`; on the scripted file `f` that write has the given outcome ("ok", "flush-timeout", or the name of
+    the error the socket raises).  A readline() that raises DeviceError is recorded as `X` and the reading goes on.
+    `flog` (a list) receives, for the distribution report, what was buffered when each write / raising read happened."""
+    from gscrib.printrun.device import READ_EMPTY, READ_EOF, DeviceError
 
     out = []
     polls = poll_set(polls, ncalls)
@@ -276,7 +344,22 @@ def _calls(d, ncalls, polls=None):
             d.is_connected          # public, read-only status query; its answer is not judged
         if i == ncalls:
             break
-        r = d.readline()
+        for j, w in writes or ():
+            if j == i:
+                if f is not None:
+                    f.wnext = w
+                if flog is not None:
+                    flog.append(("write-ok" if w in ("ok", "flush-timeout") else "write-fails", _buffered(d)))
+                with contextlib.suppress(DeviceError):
+                    d.write(WRITE_DATA)     # whether it raises is not judged here: only what the reads return
+        before = _buffered(d) if flog is not None else None
+        try:
+            r = d.readline()
+        except DeviceError:
+            out.append("X")
+            if flog is not None:
+                flog.append(("read-raises", before))
+            continue
         if r is READ_EOF:
             out.append("E")
         elif r == READ_EMPTY:
@@ -286,7 +369,7 @@ def _calls(d, ncalls, polls=None):
     return out
 
 
-def impl_session(conns, lower_seed, polls=None):
+def impl_session(conns, lower_seed, polls=None, writes=None):
     """One Device object; for each (events, ncalls): connect(), ncalls x readline() (with the status polls of
     `polls[k]` in between), disconnect().
 
@@ -304,13 +387,14 @@ def impl_session(conns, lower_seed, polls=None):
             d.connect("printer.local:23")
             assert net.k == k + 1, "connect() did not open exactly one connection"
             carry = _pending(d)
-            out = _calls(d, ncalls, polls[k] if polls else None)
+            f = net.scripts[k][0]
+            flog = []
+            out = _calls(d, ncalls, polls[k] if polls else None, writes[k] if writes else None, f, flog)
             buf = _pending(d)
             d.disconnect()
-            f = net.scripts[k][0]
             taken = f.taken
-            recs.append({"rec": " ".join(out) + " | buf=" + buf.hex(), "carry": carry.hex(),
-                         "received": b"".join(x for x in taken if x).hex(),
+            recs.append({"rec": " ".join(out) + " | buf=" + buf.hex(), "carry": carry.hex(), "faults": flog,
+                         "received": b"".join(x for x in taken if isinstance(x, bytes)).hex(),
                          "eof_seen": any(x == b"" for x in taken), "eof_peeked": f.peeked_eof})
     return recs
 
@@ -320,8 +404,10 @@ def session_model_lines(conns, recs):
     out = []
     for (ev, n), r in zip(conns, recs):
         carry = bytes.fromhex(r["carry"])
-        # no readline() call on this connection: nothing of the model to compare (it would never take the leading chunk)
-        out.append(model_line(([("c", carry)] if carry else []) + list(ev), n) if n else None)
+        # no readline() call on this connection: nothing of the model to compare (it would never take the leading chunk);
+        # a read that raises is no event of the model: such a connection is judged by the oracle only
+        ok = n and not any(e[0] == "x" for e in ev)
+        out.append(model_line(([("c", carry)] if carry else []) + list(ev), n) if ok else None)
     return out
 
 
@@ -373,7 +459,7 @@ def oracle_life(conns, recs):
         eof_seen = r["eof_seen"] or ("E" in toks and r.get("eof_peeked", False))
         sent = b"".join(e[1] for e in events if e[0] == "c")
         has_eof = any(e[0] == "e" for e in events)
-        n_again = sum(1 for e in events if e[0] == "a")
+        n_again = sum(1 for e in events if e[0] in ("a", "x"))     # calls that end with no line: time-outs, reads that raise
         backlog = len(expect_all) - len(lines_all)          # complete lines received earlier, not yet returned
         if "E" in toks:
             if not eof_seen:
@@ -478,11 +564,17 @@ def exhaustive_cases(maxlen):
                         yield ev, s.count(b"\n") + sum(again_mask) + 3, polls
 
 
-def case_repr(events, ncalls, polls=None):
-    r = {"calls": ncalls, "events": [e[0] if e[0] != "c" else "c" + e[1].hex() for e in events]}
+def case_repr(events, ncalls, polls=None, writes=None):
+    r = {"calls": ncalls, "events": ["c" + e[1].hex() if e[0] == "c" else "x" + e[1] if e[0] == "x" else e[0] for e in events]}
     if polls:
         r["polls"] = polls
+    if writes:
+        r["writes"] = [list(w) for w in writes]
     return r
+
+
+def unrepr_events(evs):
+    return [("c", bytes.fromhex(e[1:])) if e.startswith("c") else ("x", e[1:]) if e.startswith("x") else (e,) for e in evs]
 
 
 def poll_label(polls):
@@ -553,14 +645,181 @@ def gen_session(rng):
     return conns, endings, seed, polls
 
 
-def session_repr(conns, lower_seed, polls=None):
-    return {"session": [case_repr(ev, n, polls[k] if polls else None) for k, (ev, n) in enumerate(conns)],
+def session_repr(conns, lower_seed, polls=None, writes=None):
+    return {"session": [case_repr(ev, n, polls[k] if polls else None, writes[k] if writes else None)
+                        for k, (ev, n) in enumerate(conns)],
             "lower_seed": lower_seed}
 
 
 def _sess(s):
-    """(conns, endings, lower seed[, polls]) -> always four fields"""
-    return (*s, None)[:4]
+    """(conns, endings, lower seed[, polls[, writes]]) -> always five fields"""
+    return (*s, None, None)[:5]
+
+
+# ------------------------------------------------------------------ faults of the link between the reads
+def gen_fault_conn(rng):
+    """One connection whose packets carry several lines each (plus, often, an unterminated tail), with faults between
+    the reads: `Device.write()` calls placed before some of the readline() calls - most of them failing, as on a socket
+    whose peer has gone - and / or reads that raise (connection reset) in the middle of the stream or after its last
+    packet.  The reading then goes on to the end-of-stream mark (`to-end`), or the host gives up early (`dropped`)."""
+    alphabet = b"ab\r0123 ok:.XYZ\xff\x00"
+    nl = rng.randint(2, rng.choice([2, 3, 5, 12, 40]))
+    maxlen = rng.choice([0, 3, 10, 40])
+    stream = b"".join(bytes(rng.choice(alphabet) for _ in range(rng.randint(0, maxlen))) + b"\n" for _ in range(nl))
+    if rng.random() < 0.6:
+        stream += bytes(rng.choice(alphabet) for _ in range(rng.randint(1, 8)))
+    kind = rng.choice(["write", "write", "raise", "both"])
+    events, i = [], 0
+    maxk = rng.choice([8, 32, 256, 256])       # packets of several lines
+    pa = rng.choice([0.0, 0.0, 0.15])
+    while i < len(stream):
+        while rng.random() < pa:
+            events.append(("a",))
+        k = maxk if rng.random() < 0.5 else rng.randint(2, maxk)
+        events.append(("c", stream[i : i + k]))
+        i += k
+    if kind != "write":
+        err = lambda: ("x", rng.choice(("ECONNRESET", "ECONNRESET", "ETIMEDOUT", "EHOSTUNREACH")))
+        if rng.random() < 0.35:                 # in the middle of the stream (a partial line is usually buffered then)
+            events.insert(rng.randint(1, len(events)), err())
+        else:                                   # after the last packet (the tail, if any, is buffered then)
+            events += [err() for _ in range(rng.choice([1, 1, 2]))]
+    closed = rng.random() < 0.85
+    if closed:
+        events.append(("e",))
+    enough = nl + sum(1 for e in events if e[0] in ("a", "x"))
+    if rng.random() < 0.7:
+        ncalls, how = enough + (rng.randint(2, 4) if closed else rng.randint(0, 1)), "to-end"
+    else:
+        ncalls, how = rng.randint(1, enough), "dropped"
+    writes = []
+    if kind != "raise":
+        for _ in range(rng.choice([1, 1, 2, 3])):
+            at = rng.randint(1, max(1, min(ncalls - 1, nl))) if rng.random() < 0.85 else rng.randint(0, ncalls - 1)
+            w = rng.choice(("EPIPE", "EPIPE", "ECONNRESET") + LINK_ERRORS + ("runtime",)) if rng.random() < 0.65 \
+                else rng.choice(("ok", "ok", "flush-timeout"))
+            if at < ncalls:
+                writes.append((at, w))
+        writes.sort(key=lambda w: w[0])
+    return (events, ncalls), writes or None, f"{kind}/{how}"
+
+
+def gen_fault_session(rng):
+    """One Device, 1..3 consecutive connections, most of them with faults between the reads (the others as in
+    `gen_conn`); status polls as in `gen_session`."""
+    k = rng.choice([1, 1, 1, 2, 3])
+    conns, writes, endings = [], [], []
+    for j in range(k):
+        if k > 1 and rng.random() < 0.3:
+            e = rng.choice(ENDINGS)
+            c, w = gen_conn(rng, e), None
+        else:
+            c, w, e = gen_fault_conn(rng)
+        if conns and rng.random() < 0.5:
+            c = (c[0], c[1] + 3)
+        conns.append(c)
+        writes.append(w)
+        endings.append(e)
+    seed = rng.randrange(1 << 30)
+    u = rng.random()
+    if u < 0.5:
+        polls = None
+    elif u < 0.75:
+        polls = ["all"] * k
+    else:
+        polls = [gen_polls(rng, n) for _, n in conns]
+        polls = polls if any(polls) else None
+    return conns, endings, seed, polls, (writes if any(writes) else None)
+
+
+def fault_nontrivial(conns, recs, writes):
+    """a failing write or a raising read happened while something received was still buffered"""
+    return any(kind != "write-ok" and what != "nothing-buffered" for r in recs for kind, what in r["faults"])
+
+
+def gen_tcp_fault(rng):
+    """Real loopback peer: it sends >= 2 short lines (maybe a tail) at once and goes away.  `write-after-close`: the
+    peer closes; the Device reads a few lines, then writes until a write fails (the first one usually still succeeds
+    and is answered by a reset), then reads on.  `reset-by-peer`: the Device has written a command the peer never
+    reads, so that the peer's close resets the connection: a read raises after the data, then end-of-stream."""
+    alphabet = b"ab\r0123 ok:.XYZ\xff\x00"
+    nl = rng.randint(2, rng.choice([2, 3, 6, 20, 60]))
+    maxlen = rng.choice([2, 8, 30])
+    stream = b"".join(bytes(rng.choice(alphabet) for _ in range(rng.randint(0, maxlen))) + b"\n" for _ in range(nl))
+    if rng.random() < 0.6:
+        stream += bytes(rng.choice(alphabet) for _ in range(rng.randint(1, 8)))
+    mode = rng.choice(("write-after-close", "write-after-close", "reset-by-peer"))
+    first = rng.randint(1, nl - 1) if rng.random() < 0.8 else rng.randint(0, nl)
+    return stream, first, mode, ("all" if rng.random() < 0.4 else None)
+
+
+def tcp_fault_repr(stream, first, mode, polls):
+    return {"tcp_fault": {"send": stream.hex(), "first_calls": first, "mode": mode, **({"polls": polls} if polls else {})}}
+
+
+def impl_tcp_fault(stream, first, mode, polls):
+    """-> (record, whether a write failed); None: no loopback connection to be had."""
+    import time
+
+    import gscrib.printrun.device as devmod
+
+    srv, conn, d = _socket.socket(_socket.AF_INET, _socket.SOCK_STREAM), None, devmod.Device()
+    try:
+        try:
+            srv.bind(("127.0.0.1", 0))
+            srv.listen(1)
+            srv.settimeout(5)
+            d.connect("127.0.0.1:%d" % srv.getsockname()[1])
+            conn, _ = srv.accept()
+            conn.setsockopt(_socket.IPPROTO_TCP, _socket.TCP_NODELAY, 1)
+        except (OSError, devmod.DeviceError):
+            return None
+        d._timeout = 0.02
+        wfailed = False
+        if mode == "reset-by-peer":
+            d.write(WRITE_DATA)        # never read by the peer: its close() below resets the connection
+            time.sleep(0.002)
+        conn.sendall(stream)
+        conn.close()
+        out = _calls(d, first, polls)
+        if mode == "write-after-close":
+            for _ in range(25):
+                try:
+                    d.write(WRITE_DATA)
+                except devmod.DeviceError:
+                    wfailed = True
+                    break
+                time.sleep(0.001)
+        for _ in range(stream.count(b"\n") + 8):
+            out += _calls(d, 1, polls)
+            if out[-1] == "E":
+                break
+        return " ".join(out) + " | buf=" + _pending(d).hex(), wfailed
+    finally:
+        with contextlib.suppress(Exception):
+            d.disconnect()
+        if conn is not None:
+            with contextlib.suppress(OSError):
+                conn.close()
+        srv.close()
+
+
+def run_tcp_fault(R, cases, label):
+    for stream, first, mode, polls in cases:
+        got = impl_tcp_fault(stream, first, mode, polls)
+        if got is None:
+            R.count(f"{label}:unavailable")
+            continue
+        rec, wfailed = got
+        rep = tcp_fault_repr(stream, first, mode, polls)
+        R.case(rep, nontrivial=(wfailed or " X" in " " + rec))
+        R.count(label, f"{label}:{mode}", f"{label}:polls:{'before-every-read' if polls else 'none'}",
+                f"{label}:{'a-write-failed' if wfailed else 'no-write-failed'}",
+                f"{label}:{'a-read-raised' if ' X' in ' ' + rec else 'no-read-raised'}",
+                f"{label}:{'end-of-stream-reported' if ' E' in ' ' + rec else 'end-of-stream-not-reached'}")
+        msg = oracle([("c", stream), ("e",)], rec)
+        if msg:
+            R.fail(rep, msg, tag="tcp-fault")
 
 
 # ------------------------------------------------------------------ real loopback TCP connections (oracle only)
@@ -666,11 +925,11 @@ def run_batch(R, cases, label):
             R.fail(case_repr(ev, n, polls), msg, tag="split")
 
 
-def run_sessions(R, sessions, label):
+def run_sessions(R, sessions, label, nontrivial=None, tag="reconnect"):
     sessions = [_sess(s) for s in sessions]
-    recs_all = [impl_session(conns, seed, polls) for conns, _, seed, polls in sessions]
+    recs_all = [impl_session(conns, seed, polls, writes) for conns, _, seed, polls, writes in sessions]
     lines, where = [], []
-    for si, ((conns, _, _, _), recs) in enumerate(zip(sessions, recs_all)):
+    for si, ((conns, _, _, _, _), recs) in enumerate(zip(sessions, recs_all)):
         for ci, ln in enumerate(session_model_lines(conns, recs)):
             if ln is not None:
                 lines.append(ln)
@@ -680,22 +939,24 @@ def run_sessions(R, sessions, label):
     for (si, ci), mo in zip(where, model_out):
         if recs_all[si][ci]["rec"] != mo and si not in bad:
             bad[si] = (ci, mo)
-    for si, ((conns, endings, seed, polls), recs) in enumerate(zip(sessions, recs_all)):
-        rep = session_repr(conns, seed, polls)
+    for si, ((conns, endings, seed, polls, writes), recs) in enumerate(zip(sessions, recs_all)):
+        rep = session_repr(conns, seed, polls, writes)
         with_data = sum(1 for ev, _ in conns if any(e[0] == "c" for e in ev))
         nl = sum(e[1].count(b"\n") for ev, _ in conns for e in ev if e[0] == "c")
-        R.case(rep, nontrivial=(with_data >= 2 and nl >= 1))
+        R.case(rep, nontrivial=(nontrivial(conns, recs, writes) if nontrivial else (with_data >= 2 and nl >= 1)))
         R.count(label, f"{label}:conns:{len(conns)}", *{f"{label}:{e}" for e in endings},
                 f"{label}:{'carry-in' if any(r['carry'] for r in recs) else 'no-carry'}",
                 f"{label}:polls:{'none' if not polls else 'before-every-read' if all(q == 'all' for q in polls) else 'some'}")
         for a, b in zip(endings, endings[1:]):
             R.count(f"{label}:after:{a}")      # how the previous connection of a reconnect ended
+        for kind, what in {f for r in recs for f in r["faults"]}:
+            R.count(f"{label}:{kind}:{what}")  # what was buffered when a write was made / a read raised
         if si in bad:
             ci, mo = bad[si]
             R.disagree("socket-readline", rep, recs[ci]["rec"], mo, step=ci)
         msg = oracle_life(conns, recs)
         if msg:
-            R.fail(rep, msg, tag="reconnect")
+            R.fail(rep, msg, tag=tag)
 
 
 def run(R: core.Run):
@@ -707,7 +968,13 @@ def run(R: core.Run):
               "in both families ~45% of the cases read the public `is_connected` property between the reads (before every "
               "read / before a random subset), the scripted socket answering recv / recv(MSG_PEEK) consistently with the "
               "scripted stream; plus a few real loopback TCP connections (peer sends in 1..3 phases and closes, reads and "
-              "status polls in between; oracle only; non-trivial = >= 2 newlines)")
+              "status polls in between; oracle only; non-trivial = >= 2 newlines); "
+              "plus link faults between the reads: sessions of 1..3 connections whose packets carry several lines (and tails), "
+              "with Device.write() calls - 65% of them failing with EPIPE / ECONNRESET / ... / RuntimeError on the scripted "
+              "socket file - before some of the readline() calls and / or reads that raise OSError in the middle of the "
+              "stream or after its last packet, the reading going on afterwards (or the host reconnecting), judged over the "
+              "Device's whole life; non-trivial = a failing write or a raising read happened while received bytes were "
+              "buffered; a few of them over real loopback TCP (write after the peer closed until it fails; reset by peer)")
     R.assumptions = [
         "the OS socket layer / selectors deliver the bytes; the harness scripts `_socketfile.read` and `_selector.select`",
         "a real read() never returns b'' except at end-of-stream (modelled as the sticky `eof` event)",
@@ -715,6 +982,10 @@ def run(R: core.Run):
         "connect() always succeeds; the model is fed one connection at a time, bytes carried in as a leading chunk",
         "a read of `Device.is_connected` is no event of the model: the model line of a polled case is that of the same "
         "case without polls; a non-consuming recv(MSG_PEEK) on the scripted socket does not advance the script",
+        "link faults: `Device.write()` is no event of the model either (connections with writes are compared with the model "
+        "line of the same connection without them); a read that raises is not modelled: connections containing one are "
+        "judged by the oracle only; whether write() itself raises is not judged, only what the reads return",
+        "real loopback faults rely on the kernel keeping received, unread data readable after a reset (Linux does)",
     ]
     corpus = [
         ([("c", b"ab\nc"), ("a",), ("c", b"d\n"), ("c", b"e"), ("e",)], 5),
@@ -749,6 +1020,19 @@ def run(R: core.Run):
     run_sessions(R, session_corpus, "reconnect-corpus")
     run_sessions(R, [gen_session(R.rng) for _ in range(R.n(700, 12000))], "reconnect")
     run_tcp(R, [gen_tcp(R.rng) for _ in range(R.n(30, 400))], "tcp-loopback")
+    fault_corpus = [
+        # last packet = two lines and a tail; one line read, the next command cannot be sent (peer gone), reading goes on
+        ([([("c", b"ok\nT:20 /0\nbye"), E], 5)], ["write/to-end"], 5, None, [[(1, "EPIPE")]]),
+        # the connection is reset while a tail is buffered; the end-of-stream mark follows
+        ([([("c", b"ok\nT:2"), ("x", "ECONNRESET"), E], 5)], ["raise/to-end"], 6, None, None),
+        # a failed write, one more line read, then the host reconnects with `c` still buffered
+        ([([("c", b"a\nb\nc")], 2), ([("c", b"d\n"), E], 3)], ["write/dropped", "close-nl"], 7, ["all", None],
+         [[(1, "ECONNRESET")], None]),
+    ]
+    run_sessions(R, fault_corpus, "faults-corpus", fault_nontrivial, "fault")
+    fault_sessions = [gen_fault_session(R.rng) for _ in range(R.n(500, 8000))]
+    run_sessions(R, fault_sessions, "faults", fault_nontrivial, "fault")
+    run_tcp_fault(R, [gen_tcp_fault(R.rng) for _ in range(R.n(16, 200))], "tcp-faults")
     if R.thorough:
         ex = list(exhaustive_cases(6))
         run_batch(R, ex, "exhaustive<=6")
@@ -771,6 +1055,12 @@ def run(R: core.Run):
             msg = oracle_life(conns, impl_session(conns, seed, polls))
             if msg:
                 R.fail(session_repr(conns, seed, polls), msg, tag="reconnect")
+        for _ in range(R.n(1000, 4000)):
+            conns, _, seed, polls, writes = gen_fault_session(R.rng)
+            R.evaluations += 1
+            msg = oracle_life(conns, impl_session(conns, seed, polls, writes))
+            if msg:
+                R.fail(session_repr(conns, seed, polls, writes), msg, tag="fault")
     return {}, {}
 
 
@@ -783,7 +1073,19 @@ def replay(data):
     if not case:
         print("replay: no case recorded (", data.get("no_longer_checks"), ")")
         return 1
-    unhex = lambda evs: [("c", bytes.fromhex(e[1:])) if e.startswith("c") else (e,) for e in evs]
+    unhex = unrepr_events
+    if "tcp_fault" in case:
+        c = case["tcp_fault"]
+        stream = bytes.fromhex(c["send"])
+        got = impl_tcp_fault(stream, c["first_calls"], c["mode"], c.get("polls"))
+        if got is None:
+            print("replay: no loopback TCP connection could be made")
+            return 1
+        msg = oracle([("c", stream), ("e",)], got[0])
+        print(f"peer sent {stream!r} and went away ({c['mode']}); a write failed: {got[1]}")
+        print("impl :", got[0])
+        print("oracle:", msg or "ok")
+        return 1 if msg else 0
     if "tcp" in case:
         phases = [(bytes.fromhex(ph["send"]), ph["calls"]) for ph in case["tcp"]]
         polls = [ph.get("polls") for ph in case["tcp"]]
@@ -799,7 +1101,9 @@ def replay(data):
         conns = [(unhex(c["events"]), c["calls"]) for c in case["session"]]
         polls = [c.get("polls") for c in case["session"]]
         polls = polls if any(polls) else None
-        recs = impl_session(conns, case["lower_seed"], polls)
+        writes = [[tuple(w) for w in c["writes"]] if c.get("writes") else None for c in case["session"]]
+        writes = writes if any(writes) else None
+        recs = impl_session(conns, case["lower_seed"], polls, writes)
         mls = session_model_lines(conns, recs)
         mos = iter(core.run_model("socket", [m for m in mls if m is not None]))
         mos = [next(mos) if m is not None else r["rec"] for m, r in zip(mls, recs)]
@@ -807,13 +1111,17 @@ def replay(data):
             print(f"connection {k + 1}: carried in {bytes.fromhex(r['carry'])!r}, read {bytes.fromhex(r['received'])!r}"
                   f"{' + end-of-stream' if r['eof_seen'] else ''}")
             print("  impl :", r["rec"])
-            print("  model:", mo)
+            print("  model:", mo if mls[k] is not None else "(not modelled: no call, or a read that raises)")
+            if r["faults"]:
+                print("  link faults (`X` = a readline() that raised):", ", ".join(f"{a} with {b}" for a, b in r["faults"]))
+        if writes:
+            print("Device.write() before these readline() calls, with this outcome on the socket:", writes)
         if polls:
             print("status polls (`is_connected` read before these readline() calls):", polls)
         msg = oracle_life(conns, recs)
         print("oracle:", msg or "ok")
         return 1 if (msg or any(r["rec"] != mo for r, mo in zip(recs, mos))) else 0
-    ev = [("c", bytes.fromhex(e[1:])) if e.startswith("c") else (e,) for e in case["events"]]
+    ev = unhex(case["events"])
     io = impl_run(ev, case["calls"], random.Random(0), case.get("polls"))
     if case.get("polls"):
         print("status polls (`is_connected` read before these readline() calls):", case["polls"])
